@@ -71,8 +71,10 @@ impl Check for Constructor {
             }
         };
 
-        // the name of the constructor in the symbol table for the instantiated data type, the
-        // instance must exists already
+        // the instance of the expected type may not have been created yet
+        expected.check(&Some(self.span), symbol_table)?;
+
+        // the name of the constructor in the symbol table for the instantiated data type
         let name = self.id.clone() + &type_args.print_to_string(None);
         match symbol_table.ctors.get(&name) {
             Some(types) => {
